@@ -1963,7 +1963,7 @@ func AssembleFromResponse(spec *TxSpec, resp *protos.InvokeResponse) *pb.Transac
 	if v == 0 {
 		v = 3
 	}
-	tx := &pb.Transaction{Version: v, Nonce: fmt.Sprintf("n%d", spec.Seq), Timestamp: int64(spec.Seq), Initiator: k.Address,
+	tx := &pb.Transaction{Version: v, Nonce: NonceOf(spec), Timestamp: int64(spec.Seq), Initiator: k.Address,
 		AuthRequire: []string{k.Address}, Desc: descOf(spec)}
 	for _, r := range spec.Ins {
 		id, _ := hex.DecodeString(r.Txid)
